@@ -365,6 +365,9 @@ func (e *engine) run() {
 	}
 	rep.Floor(enumerated > 0 && killed*100 >= enumerated*95, "crash points killed %d of %d enumerated", killed, enumerated)
 
+	// ---- concurrent updater operations (download run ends during a zip extraction)
+	e.runConcur()
+
 	// ---- concurrent readers
 	t2 := time.Now()
 	e.runReaders()
@@ -912,6 +915,51 @@ func (e *engine) runReaders() {
 	rep.Floor(rep.Counter("reader_switches_seen") >= 20, "concurrent readers saw only %d state changes", rep.Counter("reader_switches_seen"))
 }
 
+// runConcur runs the scenarios in which two updater operations share the registry's tmp dir.
+func (e *engine) runConcur() {
+	rep := e.rep
+	n := e.cfg.N(2, 6)
+	var specs []vlib.ChildSpec
+	var sps []caseSpec
+	for i := 0; i < n; i++ {
+		r := vlib.NewRand(e.cfg.Seed, "c17-concur", uint64(i))
+		sp := caseSpec{Case: 9500 + i, Target: tZip, Seed: e.cfg.Seed*31 + uint64(i), Name: randName(r), Phase: "concur",
+			Entries: r.Range(2000, 4000), NewSize: r.Range(500, 60000), Old: "absent", Variant: "concurrent-download"}
+		sps = append(sps, sp)
+		specs = append(specs, vlib.ChildSpec{Name: fmt.Sprintf("concur-%d", i), Bin: e.cfg.BinPlain, Spec: sp, Timeout: 5 * time.Minute})
+	}
+	vlib.RunChildren(e.cfg, specs, func(i int, r *vlib.ChildResult) {
+		sp := sps[i]
+		rep.Eval(1)
+		var out concurOut
+		if r.TimedOut || !r.Done || json.Unmarshal(r.Out, &out) != nil {
+			rep.Inconclusive("concurrent unpack/download scenario %d did not complete (exit=%d signal=%q): %s", i, r.Exit, r.Signal, r.StderrTail(400))
+			return
+		}
+		rep.Count("concurrent_unpack_download_runs", 1)
+		rep.Count("concurrent_zip_entries", int64(out.Entries))
+		if out.Overlapped {
+			rep.Count("download_runs_ended_during_extraction", 1)
+			rep.Distinct(fmt.Sprintf("concur|%d|%d", out.Entries, out.StagedAtEnd))
+		} else {
+			rep.Note("concurrent scenario %d: the download run did not end inside the extraction (staged %d of %d)", i, out.StagedAtEnd, out.Entries)
+		}
+		if out.UnpackErr == "" && out.DestState != "complete" || out.DestState == "fragment" {
+			rep.Violation("C17:fragment:unpack_zip:concurrent-download:dest",
+				fmt.Sprintf("unpack_zip: a download run of the same registry ended while %d of %d entries were staged; UnpackResources returned %q and the destination directory is %s: %v",
+					out.StagedAtEnd, out.Entries, out.UnpackErr, out.DestState, out.Problems),
+				map[string]any{"spec": sp, "observed": out})
+		}
+		if strings.HasPrefix(out.Downloaded, "fragment") {
+			rep.Violation("C17:fragment:download:concurrent-unpack:dest", "download: the file downloaded while an archive was being unpacked is "+out.Downloaded,
+				map[string]any{"spec": sp, "observed": out})
+		}
+		if i == 0 {
+			rep.Sample(map[string]any{"concurrent": "UnpackResources || DownloadUpdates", "observed": out})
+		}
+	})
+}
+
 // replay re-executes the case of a witness file.
 func (e *engine) replay() {
 	var doc struct {
@@ -930,6 +978,10 @@ func (e *engine) replay() {
 		return
 	}
 	sp := doc.Detail.Spec
+	if sp.Phase == "concur" {
+		e.runConcur() // the scenario list is derived from the seed; the witness's seed is in the replay file
+		return
+	}
 	if sp.Phase == "readers" {
 		old := readerCasesOverride
 		readerCasesOverride = []caseSpec{sp}
